@@ -43,7 +43,7 @@ FirstBad(w, i) == IF i >= Len(w) THEN 0 ELSE IF Doubles(w[i], w[i + 1]) THEN Fir
 QBound(t) == MaxKey + t.depth + 6                           \* Work!QueueBound : QMax == MaxKey + MaxCol + 6
 KBound(t) == IF t.flow + 1 < MaxKey + 2 THEN t.flow + 1 ELSE MaxKey + 2    \* Work!KeysBound
 BBound(t) == IF t.block = 0 THEN t.size + 1                 \* str / bytes input: the whole text + NUL
-             ELSE t.block + t.look + 3                      \* Work!BufferBound, WorkReader!BufferBound
+             ELSE 2 * t.block + t.look + 3                     \* Work!BufferBound, WorkReader!BufferBound
 EBound(t) == 4                                              \* WorkEmit!EventQueueBound
 
 Last(s) == s[Len(s)]
